@@ -7,9 +7,6 @@ import struct
 import traceback
 
 PID = "C26"
-# Not registered in MANIFEST.json: the two "str" shards of the quick tier did not terminate (20 min CPU, 0.8 GB, inside
-# Z3 string solving) when tried on 2026-09-22; unfinished work, C26 is not claimed.
-REGISTERED = False
 LEVEL = "exploration"
 RULE = (
     "cases: constraint sets that pin or bound an expression near a boundary value of its sort - bitvectors of width "
@@ -32,8 +29,8 @@ def floors(tier):
 
 def plan(tier, seed):
     q = tier == "quick"
-    S = [{"kind": "bv", "stream": i, "n": 120 if q else 1500} for i in range(4 if q else 8)]
-    S += [{"kind": "fp", "stream": i, "n": 100 if q else 1200} for i in range(4 if q else 8)]
+    S = [{"kind": "bv", "stream": i, "n": 60 if q else 1200} for i in range(6 if q else 8)]
+    S += [{"kind": "fp", "stream": i, "n": 35 if q else 900} for i in range(6 if q else 8)]
     S += [{"kind": "str", "stream": i, "n": 60 if q else 600} for i in range(2 if q else 4)]
     S += [{"kind": "mixed", "stream": i, "n": 60 if q else 600} for i in range(2 if q else 4)]
     return S
@@ -55,7 +52,7 @@ def run_shard(spec, res):
     rng = random.Random(f"{spec['seed']}:{PID}:{spec['kind']}:{spec.get('stream')}")
     kind = spec["kind"]
     c = z3ref.ctx()
-    solvers = [claripy.Solver, claripy.SolverCacheless, claripy.SolverComposite]
+    solvers = [lambda: claripy.Solver(timeout=5000), lambda: claripy.SolverCacheless(timeout=5000), lambda: claripy.SolverComposite(template_solver=claripy.solvers.SolverCompositeChild(timeout=5000))]
     keep = []
 
     def fam_of(d):
@@ -128,14 +125,37 @@ def run_shard(spec, res):
         if sat is None:
             res.count("oracle_unknown")
             return True
+        if sat is False and _nan_pattern_exempt(cons_d, e_d):
+            # the bit pattern of a NaN is unspecified in SMT-LIB: whatever claripy reports for fpToIEEEBV(NaN) is exempt
+            res.count("exempt_nan_bit_pattern")
+            return True
         if sat is False:
             res.violation({**base, "what": "returned-value-is-not-a-value-of-the-expression-in-any-model"})
             return False
         return True
 
+    def _fp2ieee_args(d, acc):
+        if isinstance(d, list) and d and isinstance(d[0], str):
+            if d[0] == "fp2ieee":
+                acc.append(d[1])
+            for x in d[1:]:
+                if isinstance(x, list):
+                    _fp2ieee_args(x, acc)
+        return acc
+
+    def _nan_pattern_exempt(cons_d, e_d):
+        for arg in _fp2ieee_args(e_d, []):
+            ok, _m = z3ref.is_sat([rterm(x) for x in cons_d] + [z3.fpIsNaN(rterm(arg), ctx=c)], timeout_ms=8000)
+            if ok is not False:
+                return True
+        return False
+
+    def _vkey(v):
+        return ("nan",) if isinstance(v, float) and math.isnan(v) else (math.copysign(1.0, v), v) if isinstance(v, float) else v
+
     def run_queries(fam, cons_d, exprs_d, scls):
         s = scls()
-        sname = scls.__name__
+        sname = type(s).__name__
         try:
             cons = [build(x) for x in cons_d]
             exprs = [build(x) for x in exprs_d]
@@ -150,6 +170,13 @@ def run_shard(spec, res):
             res.count("solver_gave_up")
             return
         res.case([fam, sname, cons_d, exprs_d], True)
+        # fpToIEEEBV of a float that may be NaN has no specified value (Z3 answers differently from check to check, and
+        # claripy's own helper constraints on such a value can contradict each other): not asked
+        unspecified = [fam != "str" and _nan_pattern_exempt(cons_d, d) for d in exprs_d]
+        if any(unspecified):
+            res.count("skipped_unspecified_nan_pattern", sum(unspecified))
+            exprs_d = [d for d, u in zip(exprs_d, unspecified) if not u]
+            exprs = [e for e, u in zip(exprs, unspecified) if not u]
         for e_d, e in zip(exprs_d, exprs):
             symbolic = isinstance(e, claripy.ast.Base) and e.symbolic
             if not symbolic:
@@ -158,7 +185,7 @@ def run_shard(spec, res):
             try:
                 n = rng.choice([1, 2, 3, 5])
                 vals = s.eval(e, n)
-                if len(set(map(repr, vals))) != len(vals) and fam != "fp":
+                if len({_vkey(v) for v in vals}) != len(vals):
                     res.violation({"kind": "model-value", "what": "eval-returned-duplicates", "family": fam, "solver": sname, "constraints": cons_d, "expr": e_d, "observed": repr(vals)})
                 for v in vals:
                     judge_value(fam, cons_d, e_d, v, f"eval({n})", sname)
@@ -223,7 +250,10 @@ def run_shard(spec, res):
                     [["bor", ["eq", x, k], ["eq", x, k2]]],
                     [["ne", x, k], ["eq", ["lshr", x, ["bvv", 1 % (1 << w), w]], ["lshr", k2, ["bvv", 1 % (1 << w), w]]]],
                 ][shape]
-                exprs = [x, rng.choice([["add", x, ["bvv", 1 % (1 << w), w]], ["concat", x, y], ["inv", x], ["zext", 7, x], ["extract", w - 1, w // 2, x], ["sext", 64, x], ["mul", x, y]]), y]
+                second = [["add", x, ["bvv", 1 % (1 << w), w]], ["concat", x, y], ["inv", x], ["zext", 7, x], ["extract", w - 1, w // 2, x], ["sext", 64, x]]
+                if w <= 64:
+                    second.append(["mul", x, y])  # (wide symbolic multiplications only measure Z3)
+                exprs = [x, rng.choice(second), y]
                 run_queries("bv", cons, exprs, rng.choice(solvers))
             elif kind == "fp":
                 S = rng.choice("FD")
@@ -263,7 +293,7 @@ def run_shard(spec, res):
                     [["seq", ["sreplace", sv, L2, L], L], ["ule", ["slen", sv], ["bvv", 3, 64]]],
                 ][shape]
                 exprs = [sv, rng.choice([["sconcat", sv, L2], ["slen", sv], ["ssubstr", ["bvv", 0, 64], ["bvv", 2, 64], sv], ["sindexof", sv, L2, ["bvv", 0, 64]], ["sreplace", sv, L2, strbuild.S("#")]]), tv]
-                run_queries("str", cons, exprs, claripy.SolverStrings)
+                run_queries("str", cons, exprs, lambda: claripy.SolverStrings(timeout=3000))
             else:
                 # mixed sorts in one batch: BV and FP together
                 w = rng.choice([8, 64, 128])
